@@ -12,7 +12,8 @@ MANIFEST = dict(
          "observers dropped at termination/unsubscription, unicast admitting one subscriber, and every subscriber trace obeying the grammar (C01(c)); "
          "atomicity meta-theorem (one atomic action between call and return => linearizable, real-time order respected, any threads/schedule) instantiated for subjects, its premise checked on the regenerated lock skeletons of the Go methods. "
          "Tie: exhaustive operation sequences (length <= 5 quick / 6 thorough) x 5 kinds x buffer sizes, model vs real subject (traces, drops, CountObservers/HasObserver/IsClosed/HasThrown/IsCompleted after every step). "
-         "Search/validation: 2-4 goroutine histories with call/return stamps checked linearizable against the executable model by brute force; scripted schedules for the known deviations.",
+         "Search/validation: 2-4 goroutine histories with call/return stamps checked linearizable against the executable model by brute force; scripted schedules for the known deviations."
+         " Scripted schedule midunsub: a Subscribe to a unicast subject while the current subscriber's Unsubscribe is in flight (parked in a teardown of the subscriber's own) - either order of the two calls explains the history; judged by the linearizability search.",
     technique="Lean 4 proof (invariant + per-subscriber simulation, induction over operation sequences; Herlihy-Wing meta-theorem over an operational model) + regenerated fact table decided by the kernel + differential correspondence + brute-force linearizability search on recorded histories",
     ref='5/C10')
 
